@@ -102,9 +102,55 @@ def run(tier, repo=None, only=None):
         tot = _replay(sub, list(OTHERS), False, None, repo)
         tot.update(config=c, asrt=False, tlc=stats, families=list(OTHERS), vectors=len(sub))
         outcomes.append(tot)
+    if not only:
+        outcomes.append(run_sim(tier, repo))
     _judge(outcomes)
     _memo[key] = outcomes
     return outcomes
+
+
+SIM = {"quick": dict(name="ops-sim5", N=5, MaxLen=3, num=320, depth=40), "thorough": dict(name="ops-sim6", N=6, MaxLen=3, num=1600, depth=60)}
+SIM_FAMILIES = ("mixin", "light", "node", "anynode", "symlink", "adv:alwayseq:mixin", "adv:falsy:light")
+
+
+def run_sim(tier, repo, procs=16):
+    """Histories: tlc -simulate on MC_OpsSim, each behaviour replayed as one chain of calls on the same live objects."""
+    c = dict(SIM[tier], FaultMode=4, WithNonNode=False, WithCtor=False, CheckIndep=False)
+    seed = 7 + core.seed()
+    cfg = T.cfg_text(
+        {"Node": T.mv_set("n", c["N"]), "Nil": T.Raw("Nil"), "NonNode": T.Raw("NonNode"), "MaxStack": 12,
+         "MaxLen": c["MaxLen"], "FaultMode": 4, "Strict": True, "Asrt": False, "WithNonNode": False, "WithCtor": False, "CheckIndep": False},
+        next_="SimNext", invariants=("Inv_C01",), properties=THEOREMS[:6], action_constraints=("Emit",))
+    stats = T.run_tlc("MC_OpsSim", cfg, tag=c["name"], workers=1, timeout=7200,
+                      extra=("-simulate", "num=%d" % c["num"], "-depth", str(c["depth"]), "-seed", str(seed)))
+    T.require_ok(stats)
+    if stats["lines"] != c["num"] * c["depth"]:
+        raise T.MachineryError("%s: %d vectors emitted for %d simulated steps" % (c["name"], stats["lines"], c["num"] * c["depth"]))
+    stats["generated"] = stats["generated"] or stats["lines"] + 1
+    stats["simulated_behaviours"] = c["num"]
+    lines = T.read_lines(stats["lines_path"])
+    per = c["depth"] * max(1, c["num"] // (procs * 2))
+    jobs = [(lines[i:i + per], [f]) for i in range(0, len(lines), per) for f in SIM_FAMILIES]
+    with core.pool(ops_replay.worker_init, (repo, False), procs) as p:
+        parts = core.pmap(p, ops_replay.replay_chains, jobs)
+    tot = {"n": 0, "same": 0, "known": {}, "attention": [], "per_family": {}, "recursion": 0, "lockstep_diff": [], "dropped": 0,
+           "pcs": set(), "continued": 0, "longest_chain": 0}
+    for r in parts:
+        for k in ("n", "same", "recursion", "dropped", "continued"):
+            tot[k] += r[k]
+        tot["pcs"] |= set(r["pcs"])
+        tot["longest_chain"] = max(tot["longest_chain"], r["longest_chain"])
+        tot["attention"] += r["attention"]
+        for f, k in r["per_family"].items():
+            tot["per_family"][f] = tot["per_family"].get(f, 0) + k
+        for key, k in r["known"].items():
+            t = tot["known"].setdefault(key, {"count": 0, "witness": None})
+            t["count"] += k["count"]
+            t["witness"] = t["witness"] or k["witness"]
+    if tot["continued"] < tot["n"] // 2:
+        raise T.MachineryError("%s: only %d of %d simulated calls continued a history on live objects" % (c["name"], tot["continued"], tot["n"]))
+    tot.update(config=c, asrt=False, tlc=stats, families=list(SIM_FAMILIES), vectors=len(lines))
+    return tot
 
 
 MAX_JUDGED = 3000
